@@ -508,6 +508,9 @@ where
 	let mut missing_outs = vec![];
 	let mut accidental_spend_outs = vec![];
 	let mut locked_outs = vec![];
+	// commitments that are in the UTXO set: never "stale", whatever the wallet
+	// currently records for them
+	let chain_commits: Vec<pedersen::Commitment> = chain_outs.iter().map(|o| o.commit).collect();
 
 	// check all definitive outputs exist in the wallet outputs
 	for deffo in chain_outs.into_iter() {
@@ -588,7 +591,9 @@ where
 
 		let unconfirmed_outs: Vec<&OutputCommitMapping> = wallet_outputs
 			.iter()
-			.filter(|o| o.output.status == OutputStatus::Unconfirmed)
+			.filter(|o| {
+				o.output.status == OutputStatus::Unconfirmed && !chain_commits.contains(&o.commit)
+			})
 			.collect();
 		// Delete unconfirmed outputs
 		for m in unconfirmed_outs.into_iter() {
